@@ -299,6 +299,8 @@ def build_tables(p, cache_dir=None, procs=None):
             mt.rows[a] = rows
     mt.seconds = time.time() - t0
     if cache_dir:
+        from .facts import code_unchanged
+    if cache_dir and code_unchanged():
         tmp = f + ".tmp%d" % os.getpid()
         with open(tmp, "wb") as fh:
             pickle.dump(mt, fh)
